@@ -298,3 +298,55 @@ func (c *Ctx) c04Atomic(funcs []*ssa.Function, ls *Locksets, lock string, setVar
 	r.Floor("R6", "identity-field stores checked", n6, 2)
 	r.Floor("R7", "handler-set mutations checked", n7, 6)
 }
+
+// c04AllSets: R8 (handlers never get the dispatcher's shared line) and R9
+// (every event is dispatched on all three sets on every path).
+func (c *Ctx) c04AllSets() {
+	r, a := c.R, c.A
+	r.Rule("R8", "no handler receives the dispatcher's own *Line (= C15.R1): the background and foreground sets read Line.Cmd of that shared line later to choose their handlers, so a handler that could edit it would re-route the event to handlers registered under another name")
+	r.Rule("R9", "every event reaches all three handler sets: on every path of Conn.dispatch there is a dispatch on the internal, on the background and on the foreground set (a closure or goroutine started for one of them dispatches on it on every one of its paths) - no condition decides whether a set's handlers run")
+	if copyFn := c.Func(c.Client, "(*Line).Copy"); r.Anchor("R8", "(*Line).Copy", copyFn != nil) {
+		c.perInvocationCopy("R8", copyFn)
+	}
+	cd := a.ConnDispatch
+	if !r.Anchor("R9", "Conn.dispatch", cd != nil) {
+		return
+	}
+	var event func(in ssa.Instruction, set *types.Var, depth int) bool
+	event = func(in ssa.Instruction, set *types.Var, depth int) bool {
+		cs, ok := in.(ssa.CallInstruction)
+		if !ok || depth > 3 {
+			return false
+		}
+		cc := cs.Common()
+		if cc.IsInvoke() {
+			return false
+		}
+		if cc.StaticCallee() == a.SetDispatch && c.setFieldOf(cs) == set {
+			return true
+		}
+		// a closure / module function that dispatches on the set on every one of its paths
+		var f *ssa.Function
+		if mc, isMC := cc.Value.(*ssa.MakeClosure); isMC {
+			f, _ = mc.Fn.(*ssa.Function)
+		} else if sc := cc.StaticCallee(); sc != nil && sc != a.SetDispatch && sc != cd && c.InModuleFn(sc) && sc.Package() == c.Client {
+			f = sc
+		}
+		if f == nil || len(f.Blocks) == 0 {
+			return false
+		}
+		okAll, _ := AllPathsFromEntryPass(f, func(x ssa.Instruction) bool { return event(x, set, depth+1) })
+		return okAll
+	}
+	for _, set := range []*types.Var{a.Int, a.BG, a.FG} {
+		if set == nil {
+			continue
+		}
+		okAll, bad := AllPathsFromEntryPass(cd, func(x ssa.Instruction) bool { return event(x, set, 0) })
+		why := "a dispatch on the " + c.setName(set) + " set lies on every path"
+		if !okAll {
+			why = "the return at " + c.InstrPos(bad) + " (or a path of the closure started for it) is reachable without dispatching on the " + c.setName(set) + " set"
+		}
+		r.Add("R9", "all-sets:"+c.setName(set), c.Pos(cd.Pos()), c.FuncKey(cd), "every event is dispatched on the "+c.setName(set)+" set", okAll, why)
+	}
+}
